@@ -36,7 +36,10 @@ def mk_unit(ex, tag, with_dims=None):
 
 def templates(ctx):
     return [{'name': 'convert', 'mode': 'convert'}, {'name': 'add', 'mode': 'arith', 'op': 'add'}, {'name': 'sub', 'mode': 'arith', 'op': 'sub'},
-            {'name': 'mul-dimless', 'mode': 'unitop', 'op': 'mul'}, {'name': 'div-dimless', 'mode': 'unitop', 'op': 'div'}]
+            {'name': 'mul-dimless', 'mode': 'unitop', 'op': 'mul'}, {'name': 'div-dimless', 'mode': 'unitop', 'op': 'div'},
+            # the database search behind unit products / quotients: whatever it returns has the dimension and (within the crate's own
+            # tolerance) the scale that was asked for - symbolic dimension and scale over the real generated table
+            {'name': 'match-units', 'mode': 'match', 'max_steps': 4000000}]
 
 
 def path(ex, t):
@@ -61,6 +64,14 @@ def path(ex, t):
         r = ex.call_body(prog.find_method(nt, tr, t['op']), [Agg(nt, 0, [x, ua]), Agg(nt, 0, [y, ub])])
         ex.side['pa'] = pa; ex.side['pb'] = pb
         return r
+    if t['mode'] == 'match':
+        dt = prog.canon_type('units::unit_dimension::UnitDimensions')
+        dv = [z3.BitVec('md%d' % i, 8) for i in range(7)]
+        # the scale is one of a few values (forked): a symbolic f64 makes every tolerance test of the 946 table rows an FP query
+        scale = [1.0, 3.280839895013123, 7.5, 0.001, 1000.0, 3600.0, 0.3048][ex.pick(7)]
+        ex.side['in'] = {'dims': dv, 'scale': scale}
+        f = prog.find_fn(['units', 'match_units'])
+        return ex.call_body(f, [Agg(dt, 0, list(dv)), scale])
     if t['mode'] == 'unitop':
         a, ma = mk_unit(ex, 'a'); b, mb = mk_unit(ex, 'b')
         ex.assume(True)
@@ -168,6 +179,20 @@ def post(ex, t, r):
                 if viol is None and not z3.eq(z3.simplify(n.fields[0]), z3.simplify(spec)):
                     q = z3.And(z3.Not(z3.fpIsNaN(spec)), z3.Not(z3.fpEQ(n.fields[0], spec)))
                     if ex.sat(q) is not None: viol = 'value'; cond = q
+    if r.kind == 'ok' and t['mode'] == 'match':
+        got = []
+        for up in r.value.items:
+            u = up
+            while isinstance(u, Ptr): u = ex.load(u)
+            ud = deref(ex, u.fields[2]); us = u.fields[3]
+            sc = I['scale']
+            # the crate's own tolerance (approx_eq): equal, or |a - b| <= min(|a|, |b|) / 1000
+            usv = float(us)
+            close = z3.BoolVal(usv == sc or abs(usv - sc) <= min(abs(usv / 1e3), abs(sc / 1e3)))
+            dims_ok = ud.variant == 1 and True
+            dq = z3.And([a_ == b_ for a_, b_ in zip(deref(ex, ud.fields[0]).fields, I['dims'])]) if ud.variant == 1 else z3.BoolVal(False)
+            bad = z3.Not(z3.And(dq, close))
+            if viol is None and ex.sat(bad) is not None: viol = 'returns-a-unit-of-another-dimension-or-scale'; cond = bad
     if r.kind == 'ok' and t['mode'] == 'unitop':
         if r.value.variant == 0: viol = 'dimensionless-accepted'
     if r.kind == 'panic': viol = 'panic'
@@ -191,6 +216,16 @@ def post(ex, t, r):
                             'ub': None if sh == 3 else (unit_json(cz, I['b']) if sh in (1, 2) else None), 'same_unit': sh == 0,
                             'x': f2bits(cz.c(I['x'])), 'y': f2bits(cz.c(I['y']))}
         if r.kind == 'ok': s['result'] = None if r.value.variant == 1 else f2bits(cz.c(r.value.fields[0].fields[0]))
+    elif t['mode'] == 'match':
+        dv = [cz.c(x) for x in I['dims']]; dv = [x - 256 if x >= 128 else x for x in dv]
+        s['native_case'] = {'api': 'match_units', 'dims': dv, 'scale': f2bits(cz.c(I['scale']))}
+        if r.kind == 'ok':
+            names = []
+            for up in r.value.items:
+                u = up
+                while isinstance(u, Ptr): u = ex.load(u)
+                names.append(bytes(deref(ex, u.fields[1]).items[0].items).decode())
+            s['result'] = sorted(set(names))
     else:
         s['native_case'] = None
         s['result'] = None
@@ -212,6 +247,23 @@ def run(ctx):
         if n is not None:
             if 'ok' not in n and not (s['kind'] == 'panic' and 'panic' in n):
                 mism += 1; print('MODEL-MISMATCH %s: %s vs native %s' % (s['template'], s['kind'], str(n)[:200])); continue
+            if s['kind'] == 'ok' and s['mode'] == 'match':
+                nn = sorted(set(x['name'] for x in n['ok']))
+                if nn != s['result']:
+                    mism += 1; print('MODEL-MISMATCH match-units %s: mirsym %s native %s' % (json.dumps(s['native_case']), s['result'], nn)); continue
+                if s.get('viol'):
+                    # confirm on the native answer: some returned unit has another dimension or a scale outside the tolerance
+                    import struct as _st
+                    want = s['native_case']['dims']; sc = _st.unpack('<d', bytes.fromhex(s['native_case']['scale'])[::-1])[0]
+                    def off(x):
+                        us = _st.unpack('<d', bytes.fromhex(x['scale'])[::-1])[0]
+                        return x['dims'] != want or not (us == sc or abs(us - sc) <= min(abs(us / 1e3), abs(sc / 1e3)))
+                    if not any(off(x) for x in n['ok']):
+                        mism += 1; print('MODEL-MISMATCH match-units verdict not reproduced: %s -> %s' % (json.dumps(s['native_case']), json.dumps(n['ok'])[:200])); continue
+                validated += 1
+                if s.get('viol'):
+                    ctx.report('units.%s:%s' % (s['template'], s['viol']), 'match_units(%s, scale %s) returns %s' % (s['native_case']['dims'], s['native_case']['scale'], json.dumps(n['ok'])[:300]), case=s['native_case'])
+                continue
             if s['kind'] == 'ok':
                 nv = n['ok']; got = None if nv is None else (nv if isinstance(nv, str) else nv['bits'])
                 same = (got is None) == (s['result'] is None) and (got is None or got == s['result'] or (got[:3] in ('7ff', 'fff') and s['result'][:3] in ('7ff', 'fff')))
